@@ -317,7 +317,7 @@ class _Child(object):
         logger.propagate = False
         logger.setLevel(logging.CRITICAL + 10)
         svc = _make_service()
-        kw = dict(auto_register=False, logger=logger, protocol_config={"sync_request_timeout": 30})
+        kw = dict(auto_register=False, logger=logger, protocol_config={"sync_request_timeout": 30, "allow_public_attrs": True})
         if a.unix:
             kw["socket_path"] = a.unix
         else:
